@@ -217,6 +217,9 @@ func (t *Tools) Run(argv []string, stdin string) kern.ToolResult {
 			// a warning of the interpreter in front of the report: one line of 5000 bytes
 			stdout = append([]byte("DeprecationWarning: "+strings.Repeat("the imp module is deprecated ", 172)+"\n"), stdout...)
 		}
+		if strings.Contains(stdin, "PROGRESSNOISE") {
+			stdout = append([]byte("pyflakes-wrapper: checking 1 file\r"), stdout...)
+		}
 		if len(issues) > 0 {
 			code = 1
 		}
